@@ -11,15 +11,18 @@ CONFIGS_QUICK = ["A"]
 CONFIGS_THOROUGH = ["A", "R", "ASYNCSTD", "SMOL", "NIO", "GLOMMIO", "NOAPI"]
 TECHNIQUE = ('pairing rules on built MIR (capacity terms vs unchecked writes, store mutation vs size update, payload store vs Content-Length), flag-sensitive must-'
              'pass exploration of the Payload arm of send, representation-invariant lint of IndexMap, literal tables')
-LEVEL_TEXT = ('Decides clauses C03-a..h: in every arm of Response::send the summands of the reserved capacity cover, by provenance, each unchecked write into that '
-              'buffer, and only functions that reserved `size` call write_unchecked_to; every mutator of the response header stores updates `size` on each mutating '
-              'path (including in-place changes of a stored value through the reference handed out by get_mut), with the literals the writer emits per entry kind; '
-              "IndexMap's readers and its delete/set agree on which entries are live (no stale duplicate can be iterated); every function storing Content::Payload "
-              'also sets Content-Length from the length of the same bytes (Content::Stream: chunked, no length); complete() drops length and body for 204 and length '
-              'for streams and is called on every path of Router::handle; status lines and header names are well-formed tokens; on every flag-consistent path through'
-              ' the Content::Payload arm of Response::send the payload bytes reach the connection exactly once (staged into the buffer that is then written, or '
-              'written directly), so the announced Content-Length is followed by that many bytes; insert, append and remove of a header given by name agree on '
-              'whether standard names are redirected to the standard store. Decides these clauses, not byte-level well-formedness for all operation histories.')
+LEVEL_TEXT = ('Decides clauses C03-a..h: in every arm of Response::send the summands of the reserved capacity cover, by provenance, each unchecked write into that bu'
+              'ffer, and only functions that reserved `size` call write_unchecked_to; every mutator of the response header stores updates `size` on each mutating pat'
+              'h (including in-place changes of a stored value through the reference handed out by get_mut), with the literals the writer emits per entry kind; Index'
+              "Map's readers and its delete/set agree on which entries are live (no stale duplicate can be iterated); every function storing Content::Payload also se"
+              'ts Content-Length from the length of the same bytes (Content::Stream: chunked, no length); complete() drops length and body for 204 and length for str'
+              'eams and is called on every path of Router::handle; status lines and header names are well-formed tokens; on every flag-consistent path through the Co'
+              'ntent::Payload arm of Response::send the payload bytes reach the connection exactly once (staged into the buffer that is then written, or written dire'
+              'ctly), so the announced Content-Length is followed by that many bytes; insert, append and remove of a header given by name agree on whether standard n'
+              'ames are redirected to the standard store. The 204/stream decisions of complete() are decided on every path: from the entry no path reaches the exit w'
+              'ithout the removal of Content-Length (resp. of the body) unless it takes an edge establishing that the status is not 204 (resp. the content is not a s'
+              'tream) or that there is nothing to remove, so an arm matched before the status is looked at cannot answer for a 204. Decides these clauses, not byte-l'
+              'evel well-formedness for all operation histories.')
 
 HDR = r"^ohkami::response::headers::Headers$"
 
